@@ -14,6 +14,7 @@ import TypedpyModel.Lemmas.SchemaExact
 import TypedpyModel.Lemmas.SchemaDialect
 import TypedpyModel.Lemmas.SchemaDefs
 import TypedpyModel.Lemmas.SchemaRename
+import TypedpyModel.Lemmas.SchemaExactClass
 namespace Typedpy.C08
 open Typedpy Typedpy.Sch
 
@@ -148,6 +149,22 @@ theorem field_exact_partial (O : Oracles) (R : String → PyVal → Bool) (S : S
     (hfrag : exactScalar f = true) (h : jsV R S (emit true f) v = true) :
     ∃ y y', deser O opts ign f v = .ok y ∧ validate O f y = .ok y' :=
   exact_scalar O R S hS opts ign f v hfrag h
+
+/-- **schema_exact (partial, class level).**  For every class of `inExactFragment` (flat, over the
+    exact scalar fragment, no defaults, not a field wrapper), every JSON object (string keys) that the
+    class's schema admits — the schema `structure_to_schema` returns, after the dialect rewrite — and
+    every flag setting of the Deserializer: `Deserializer(cls).deserialize(doc)` succeeds (each member
+    passes its field, required members are present, undeclared members are allowed or absent, the
+    constructor's validation accepts).  Containers and nested classes are not covered (there the
+    schema is NOT exact: findings exact:positional-shorter, exact:map-size, exact:map-key-constraint). -/
+theorem schema_exact_class_partial (O : Oracles) (R : String → PyVal → Bool) (S : String → String → Bool)
+    (hS : ∀ p s, startAnchored p = true → S p s = true → O.reMatch p s = true)
+    (opts : DeserOpts) (cls : FieldDecl) (kvs : List (PyVal × PyVal)) (kw : List (String × PyVal))
+    (hfrag : inExactFragment cls = true) (hkw : kwOfDict kvs = some kw)
+    (h : jsV R S (dialectFix (toSchema cls).1) (.dict kvs) = true) :
+    ∃ x, deserialize O opts cls (.dict kvs) = .ok x := by
+  rw [(dialect_fix_is_emit_true cls).1] at h
+  exact c08_exact_class O R S hS opts cls kvs kw hfrag hkw h
 
 /-! ### a concrete non-trivial input meets the hypotheses -/
 
@@ -322,6 +339,18 @@ theorem fixed_multiple_of_negative :
     ∧ wfOf (flat "K" ["a"] [("a", .integer { mult := some (-2) }), ("b", .boolean)]) = true
     ∧ verdict (flat "K" ["a"] [("a", .integer { mult := some (-2) }), ("b", .boolean)])
         (.inst "K" [("a", .int (-4))]) = true := by decide
+
+def exExactCls : FieldDecl :=
+  flat "K" ["i", "s"] [("i", .integer { min := some ⟨0, 1⟩, max := some ⟨10, 1⟩, sign := .any }),
+                       ("s", .string (some 1) (some 3) none), ("b", .boolean),
+                       ("e", .enumCls "Color" ["RED", "GREEN"])]
+
+theorem schema_exact_class_example :
+    inExactFragment exExactCls = true
+    ∧ schemaAccepts exS exExactCls 0 (.dict [(.str "i", .int 3), (.str "s", .str "xy"), (.str "e", .str "RED")]) = true
+    ∧ (match deserialize exO {} exExactCls (.dict [(.str "i", .int 3), (.str "s", .str "xy"), (.str "e", .str "RED")]) with
+       | .ok _ => true | .error _ => false) = true
+    ∧ schemaAccepts exS exExactCls 0 (.dict [(.str "i", .int 11), (.str "s", .str "xy")]) = false := by decide
 
 def exDefaults : FieldDecl :=
   flat "K" ["a"] [("a", .integer {}), ("c", .enumCls "Color" ["RED", "GREEN"]),
